@@ -114,7 +114,20 @@ fn samples_close<T: Pixel>(a: &Yuv<T>, b: &Yuv<T>, depth: u8) -> Result<f64, Str
     Ok(worst)
 }
 
-fn run_yuv_ops<T: Pixel>(c: &Case, st: &mut Stats) -> Result<(), String> {
+/// the conversion of a case under a given config (the op's source type is built from the case's content)
+fn convert_case<T: Pixel>(c: &Case, cfgx: YuvConfig) -> Result<Yuv<T>, yuvxyb::ConversionError> {
+    let (w, h) = (c.w, c.h);
+    let px = content(c.content_seed, w * h);
+    let (t_in, p_in) = resolve_rgb(c.cfg.transfer_characteristics, c.cfg.color_primaries);
+    match c.op {
+        Op::RgbRefToYuv => Yuv::<T>::try_from((&Rgb::new(px, w, h, t_in, p_in).unwrap(), cfgx)),
+        Op::RgbToYuv => Yuv::<T>::try_from((Rgb::new(px, w, h, t_in, p_in).unwrap(), cfgx)),
+        Op::LinToYuv => Yuv::<T>::try_from((LinearRgb::new(px, w, h).unwrap(), cfgx)),
+        _ => Yuv::<T>::try_from((Xyb::from(LinearRgb::new(px, w, h).unwrap()), cfgx)),
+    }
+}
+
+fn run_yuv_ops<T: Pixel + Send + 'static>(c: &Case, st: &mut Stats) -> Result<(), String> {
     let (w, h) = (c.w, c.h);
     let want = resolve_yuv(&c.cfg, w, h);
     let px = content(c.content_seed, w * h);
@@ -164,6 +177,14 @@ fn run_yuv_ops<T: Pixel>(c: &Case, st: &mut Stats) -> Result<(), String> {
                     _ => Yuv::<T>::try_from((Xyb::from(LinearRgb::new(px.clone(), w, h).unwrap()), cfgx)),
                 }
             };
+            // decoy: the same conversion with other (specified) primaries first; whatever the library remembers
+            // from it must not influence the conversion under test
+            if w * h <= 1 << 14 {
+                let others = [CP::Tech3213, CP::ST170M, CP::BT470BG, CP::BT2020, CP::P3Display, CP::Film, CP::BT470M, CP::ST240M];
+                let mut d = c.cfg;
+                d.color_primaries = others[(w + 3 * h + c.content_seed as usize + c.cfg.bit_depth as usize) % others.len()];
+                let _ = convert(d);
+            }
             let out = match convert(c.cfg) {
                 Err(_) => {
                     st.class("conversion_with_unspecified_fields_fails", 1);
@@ -192,6 +213,16 @@ fn run_yuv_ops<T: Pixel>(c: &Case, st: &mut Stats) -> Result<(), String> {
                 let re = Yuv::<T>::try_from((dec, out.config())).map_err(|e| format!("{e:?}"))?;
                 let worst = samples_close(&re, &explicit, c.cfg.bit_depth).map_err(|m| format!("{}: decoding the output with its own config does not reproduce the input: {m}", op_name(c.op)))?;
                 st.max("max_code_diff_decode_reencode", worst);
+            }
+            // the same conversion on a fresh thread (no earlier calls): identical samples and config
+            if w * h <= 1 << 14 {
+                let cc = c.clone();
+                let fresh = std::thread::spawn(move || convert_case::<T>(&cc, cc.cfg).map(|y| (y.config(), yuv_samples(&y)))).join().map_err(|_| "panic on a fresh thread".to_string())?;
+                match fresh {
+                    Ok((fc, fs)) if fc == out.config() && fs == yuv_samples(&out) => {}
+                    _ => return Err(format!("{}: the result depends on earlier calls on the same thread (it differs from the same conversion run on a fresh thread)", op_name(c.op))),
+                }
+                st.class("fresh_thread_comparisons", 1);
             }
             // pure function of config and dimensions
             if w * h <= 1 << 14 {
@@ -447,4 +478,4 @@ pub fn replay(v: &Value) -> Result<(), String> {
     check(&c, &mut Stats::new()).map_err(|v| v.message)
 }
 
-pub const RULE: &str = "enumeration: widths {1,2,16,1279,1280,1281} x heights {1,2,479..=489,575..=577,1279..=1281} x matrices x the 8 subsets of {matrix, primaries, transfer} set to Unspecified x {Yuv::new, Rgb::new, (LinearRgb|Xyb,t,p)->Rgb, (&Rgb|Rgb|LinearRgb|Xyb,cfg)->Yuv} (thorough: depths 8/10/16, random colour content, conversions of large frames). Oracle: (i) no accessor returns Unspecified; (ii) the resolved values equal the heuristic re-implemented from the statement, are the same on a second call and for other sample data; (iii) label = content: converting the same input with the stored (resolved) config given explicitly yields the same samples within max(1, 1.5% of the code range), and decoding the output with its own config and re-encoding reproduces them within the same budget. Frames handed to Yuv::new are also built with Plane::new paddings (storage geometry must not matter); every case is preceded by a call on the transposed shape (equal area) and by a sibling call with the same size and given metadata but another range/depth (no state may leak between calls). Conversions that fail are counted, not judged. A case = one (operation, size, config) triple; non-trivial = at least one field Unspecified; distinct by construction (hash of the case)";
+pub const RULE: &str = "enumeration: widths {1,2,16,1279,1280,1281} x heights {1,2,479..=489,575..=577,1279..=1281} x matrices x the 8 subsets of {matrix, primaries, transfer} set to Unspecified x {Yuv::new, Rgb::new, (LinearRgb|Xyb,t,p)->Rgb, (&Rgb|Rgb|LinearRgb|Xyb,cfg)->Yuv} (thorough: depths 8/10/16, random colour content, conversions of large frames). Oracle: (i) no accessor returns Unspecified; (ii) the resolved values equal the heuristic re-implemented from the statement, are the same on a second call and for other sample data; (iii) label = content: converting the same input with the stored (resolved) config given explicitly yields the same samples within max(1, 1.5% of the code range), and decoding the output with its own config and re-encoding reproduces them within the same budget. Frames handed to Yuv::new are also built with Plane::new paddings (storage geometry must not matter); every case is preceded by a call on the transposed shape (equal area) and by a sibling call with the same size and given metadata but another range/depth (no state may leak between calls); conversions are also preceded by the same conversion under other primaries and compared with the same conversion on a fresh thread. Conversions that fail are counted, not judged. A case = one (operation, size, config) triple; non-trivial = at least one field Unspecified; distinct by construction (hash of the case)";
